@@ -328,6 +328,7 @@ func (fg *FuncGen) applyCall(cl *callee, args []Val, pos token.Pos, guard string
 			fg.note("dynamic call %s: no contract; whole heap havocked", cl.name)
 		}
 	}
+	fg.recordResults(results)
 	// object invariants of returned objects hold in the post state
 	for _, r := range results {
 		fg.assumeObjInv(r, st, true)
@@ -352,24 +353,46 @@ func (fg *FuncGen) recordCall(cl *callee, args []Val, guard string) {
 	cnt := fg.ghostGet(st, "$calls:"+name, "Int", "0")
 	seq := fg.ghostGet(st, "$seq", "Int", "0")
 	fg.ghostInits["$calls:"+name] = "0"
-	j := 0
-	for _, a := range args {
-		if isPtr(a.Typ) || isMap(a.Typ) {
-			cell := fmt.Sprintf("$callarg:%s:%d", name, j)
-			init := "((as const (Array Int Int)) 0)"
-			fg.ghostInits[cell] = init
-			arr := fg.ghostGet(st, cell, "(Array Int Int)", init)
-			fg.ghostSet(st, cell, "(Array Int Int)", ite(guard, fmt.Sprintf("(store %s %s %s)", arr, cnt, a.T), arr))
-			j++
+	for j, a := range args {
+		if a.T == "" || a.Typ == nil {
+			continue
 		}
+		cell := fmt.Sprintf("$callarg:%s:%d", name, j)
+		srt := fmt.Sprintf("(Array Int %s)", fg.enc.sortOf(a.Typ))
+		arr := fg.ghostGet(st, cell, srt, "")
+		fg.ghostSet(st, cell, srt, ite(guard, fmt.Sprintf("(store %s %s %s)", arr, cnt, a.T), arr))
 	}
 	sc := "$callseq:" + name
 	init := "((as const (Array Int Int)) 0)"
 	fg.ghostInits[sc] = init
 	sarr := fg.ghostGet(st, sc, "(Array Int Int)", init)
 	fg.ghostSet(st, sc, "(Array Int Int)", ite(guard, fmt.Sprintf("(store %s %s %s)", sarr, cnt, seq), sarr))
+	fg.pendingTrace = &traceRec{name: name, cnt: cnt, guard: guard}
 	fg.ghostSet(st, "$calls:"+name, "Int", ite(guard, fmt.Sprintf("(+ %s 1)", cnt), cnt))
 	fg.ghostSet(st, "$seq", "Int", ite(guard, fmt.Sprintf("(+ %s 1)", seq), seq))
+}
+
+type traceRec struct {
+	name, cnt, guard string
+}
+
+// recordResults stores the results of a traced call in the ghost trace.
+func (fg *FuncGen) recordResults(results []Val) {
+	tr := fg.pendingTrace
+	fg.pendingTrace = nil
+	if tr == nil {
+		return
+	}
+	st := fg.cur
+	for i, r := range results {
+		if r.T == "" || r.Typ == nil {
+			continue
+		}
+		cell := fmt.Sprintf("$callres:%s:%d", tr.name, i)
+		srt := fmt.Sprintf("(Array Int %s)", fg.enc.sortOf(r.Typ))
+		arr := fg.ghostGet(st, cell, srt, "")
+		fg.ghostSet(st, cell, srt, ite(tr.guard, fmt.Sprintf("(store %s %s %s)", arr, tr.cnt, r.T), arr))
+	}
 }
 
 // ---- frames ------------------------------------------------------------------------
